@@ -385,7 +385,27 @@ fn fixup(spec: &Spec) -> Option<Spec> {
 }
 
 pub fn size(s: &Spec) -> usize {
-    serde_json::to_string(s).map(|x| x.len()).unwrap_or(usize::MAX)
+    serde_json::to_string(s).map(|x| x.len()).unwrap_or(usize::MAX / 2) + render_idl(s).len()
+}
+
+fn strip_annotations(defs: &[Def]) -> Vec<Def> {
+    defs.iter()
+        .map(|d| match d {
+            Def::Module { name, defs } => Def::Module { name: name.clone(), defs: strip_annotations(defs) },
+            Def::Struct { name, members, .. } => Def::Struct {
+                name: name.clone(),
+                ext: None,
+                nested: false,
+                members: members.iter().map(|m| Member { key: false, id: None, hashid: false, optional: false, ..m.clone() }).collect(),
+            },
+            Def::Enum { name, enumerators, .. } => Def::Enum {
+                name: name.clone(),
+                bit_bound: None,
+                enumerators: enumerators.iter().map(|(n, _)| (n.clone(), None)).collect(),
+            },
+            other => other.clone(),
+        })
+        .collect()
 }
 
 pub fn reductions(spec: &Spec) -> Vec<Spec> {
@@ -399,6 +419,9 @@ pub fn reductions(spec: &Spec) -> Vec<Spec> {
     if spec.style != 0 {
         out.push(Spec { style: 0, ..spec.clone() });
     }
+    // big steps first: plain text, no annotations at all
+    out.push(Spec { guard: None, defines: vec![], style: 0, ..spec.clone() });
+    out.push(Spec { defs: strip_annotations(&spec.defs), guard: None, defines: vec![], style: 0 });
     for defs in edits(&spec.defs) {
         out.push(Spec { defs, ..spec.clone() });
     }
